@@ -295,6 +295,11 @@ def h_uri_name(eng, case):
     Name, Component = _N()
     comps = []
     for i, k in enumerate(case['lens']):
+        if isinstance(k, (list, tuple)):
+            # a fixed beginning (periods, '%', '=' ... - characters the URI syntax gives a meaning to) + k[1] symbolic octets
+            pre = list(k[0].encode())
+            comps.append(bwrap([8, len(pre) + k[1]] + pre + blist(eng.bytes('c%d' % i, k[1]))))
+            continue
         comps.append(env.concrete_component(8, b'') if k == 0 else
                      bwrap([8, k] + blist(eng.bytes('c%d' % i, k))))
     eng.format_concretize = True
@@ -419,6 +424,12 @@ def cases(tier, seed):
             cs.append(('uri_number', {'typ': t, 'lo': lo, 'hi': hi}))
     for lens in ([], [0], [1], [0, 0], [0, 1], [1, 0], [1, 1] if not quick else [0, 1]):
         cs.append(('uri_name', {'lens': lens}, {'weight': 4}))
+    # components made of periods (and one arbitrary octet): alone, first, last, in the middle of a name
+    for pre in ('.', '..', '...', '....'):
+        for lens in ([[pre, 0]], [[pre, 1]], [1, [pre, 0]], [[pre, 0], 0], [0, [pre, 0], [pre, 0]]):
+            if quick and lens[0] == 1 and pre in ('.', '....'):
+                continue
+            cs.append(('uri_name', {'lens': lens}, {'weight': 4}))
     if not quick:
         cs.append(('uri_name', {'lens': [1, 1]}, {'weight': 30, 'split_depth': 2}))
     return cs
